@@ -276,6 +276,7 @@ func TestC03(t *testing.T) {
 	signed(t, rep, env, depth)
 	signedLifecycle(t, rep, env)
 	encryptedLifecycle(t, rep, env)
+	runRecvSched(t, rep, env)
 	if err := rep.Finish(env); err != nil {
 		t.Fatal(err)
 	}
